@@ -247,6 +247,11 @@ def run(tier: str) -> int:
         shorts = {n: fuse_in_short_circuit(f) for (n, f, _) in progs}
         agree = []
         pairs, timeouts = equiv.make_pairs(progs, configs(tier), rng, nvec, stats, vectors_fn=vectors, agree=agree)
+        # the repository's own vector / matrix / metrics libraries: loops and comprehensions written by the maintainers
+        lp, lt = equiv.library_pairs(configs(tier), rng, max(8, nvec // 2), stats, agree, pid0=len(pairs) + 10000,
+                                     every=(6 if tier == 'quick' else 1), phase=core.seed())
+        pairs += lp
+        timeouts += lt
         mm, skips, gen, dis = equiv.run_equiv(pairs)
     finally:
         shutil.rmtree(work, ignore_errors=True)
@@ -255,11 +260,11 @@ def run(tier: str) -> int:
         k = {}
         if 'elim_iter' in meta['config'] and shapes.get(meta['program']):
             k['shape'] = 'iter-source-mutated-in-body'
-        if 'fuse' in meta['config'] and shorts.get(meta['program']) and clause in ('model-raises', 'impl-raises'):
+        if 'fuse' in meta['config'] and shorts.get(meta['program']) and clause in ('model-raises', 'impl-raises', 'code-raises', 'transformed-raises'):
             k['shape'] = 'fuse-hoists-from-short-circuit-operand'
         return k
     equiv.report(rep, pairs, timeouts, mm, skips, stats, extra_key=key,
-                 precondition_error=lambda meta, err: 'STRICT' in meta['config'] and err == 'AssertionError')
+                 precondition_error=lambda meta, err: 'STRICT' in meta['config'] and err == 'AssertionError', agree=agree)
     equiv.run_agree(rep, agree, extra_key=key,
                     precondition_error=lambda meta, err: 'STRICT' in meta['config'] and err == 'AssertionError')
     rep.cov['distinct_nontrivial'] = len({(m['program'], m['xsrc']) for (_, _, m) in pairs})
